@@ -45,6 +45,8 @@ pub enum Op {
     Checkpoint,
     Restore(usize),
     Tick(u64),
+    /// a clean restart: the store object is dropped and a new StateStore is opened on the same directory
+    Reopen,
 }
 
 const TTL: u64 = 2;
@@ -73,6 +75,15 @@ pub struct Sys {
     model: BTreeMap<String, MEntry>,
     cps: Vec<MCheckpoint>,
     retained: Vec<usize>,
+    /// checkpoints retained by an earlier store instance: the current instance does not know them, nothing
+    /// deletes them, so they stay restorable
+    orphans: Vec<usize>,
+    /// first checkpoint index of the current store instance
+    instance_start: usize,
+    /// checkpoints of an earlier instance that retention had deleted and whose id a later instance handed out again
+    /// (a new process cannot know an id whose directory no longer exists): not restore targets any more
+    superseded: Vec<usize>,
+    reopen_letter: bool,
     last_checkpoint_clock: Option<u64>,
     ops: Vec<Op>,
     fault_injection: bool,
@@ -94,7 +105,33 @@ impl Sys {
     pub fn new(max_checkpoints: usize, nkeys: usize, fault_injection: bool) -> Self {
         let dir = new_dir();
         let store = mk_store(&dir, max_checkpoints);
-        Sys { dir, store: Some(store), max_checkpoints, keys: ["k1", "k2", "k3"][..nkeys].to_vec(), clock: T0, model: BTreeMap::new(), cps: vec![], retained: vec![], last_checkpoint_clock: None, ops: vec![], fault_injection, max_restore_targets: 3 }
+        Sys { dir, store: Some(store), max_checkpoints, keys: ["k1", "k2", "k3"][..nkeys].to_vec(), clock: T0, model: BTreeMap::new(), cps: vec![], retained: vec![], orphans: vec![], instance_start: 0, superseded: vec![], reopen_letter: false, last_checkpoint_clock: None, ops: vec![], fault_injection, max_restore_targets: 3 }
+    }
+    pub fn with_reopen(mut self) -> Self {
+        self.reopen_letter = true;
+        self
+    }
+    fn reopen(&mut self) {
+        self.store = None;
+        self.store = Some(mk_store(&self.dir, self.max_checkpoints));
+        self.model.clear();
+        let r = std::mem::take(&mut self.retained);
+        self.orphans.extend(r);
+        self.instance_start = self.cps.len();
+    }
+    /// an id may be handed out again only if it belonged to a checkpoint of an earlier instance that no longer exists
+    fn note_id(&mut self, id: &str) -> Option<usize> {
+        let mut clash = None;
+        for (j, c) in self.cps.iter().enumerate() {
+            if c.id == id && !self.superseded.contains(&j) {
+                if j >= self.instance_start || self.orphans.contains(&j) {
+                    clash = Some(j);
+                } else {
+                    self.superseded.push(j);
+                }
+            }
+        }
+        clash
     }
     fn st(&mut self) -> &mut StateStore {
         self.store.as_mut().unwrap()
@@ -201,6 +238,7 @@ impl Sys {
                 let snap = self.observe().unwrap_or_default();
                 hooks::set_clock_ms(Some(self.clock));
                 if let Ok(id) = self.st().checkpoint("cp") {
+                    let _ = self.note_id(&id);
                     self.cps.push(MCheckpoint { id, snapshot: snap, same_ms_as_previous: self.last_checkpoint_clock == Some(self.clock) });
                     self.retained.push(self.cps.len() - 1);
                     if self.retained.len() > self.max_checkpoints {
@@ -217,6 +255,7 @@ impl Sys {
                 }
             }
             Op::Tick(d) => self.clock += d,
+            Op::Reopen => self.reopen(),
         }
         hooks::set_clock_ms(None);
     }
@@ -238,6 +277,7 @@ impl Sys {
             CRASH_RUNS.fetch_add(1, Ordering::Relaxed);
             // rebuild the pre-checkpoint state in a fresh directory by replaying the history
             let mut s = Sys::new(self.max_checkpoints, self.keys.len(), false);
+            s.reopen_letter = self.reopen_letter;
             for op in &self.ops {
                 s.apply_unchecked(op);
             }
@@ -266,7 +306,8 @@ impl Sys {
             };
             // earlier checkpoints are undamaged
             let would_drop: Option<usize> = if s.retained.len() + 1 > self.max_checkpoints { s.retained.first().copied() } else { None };
-            for &j in &s.retained {
+            let earlier: Vec<usize> = s.orphans.iter().chain(s.retained.iter()).copied().collect();
+            for &j in &earlier {
                 let cp = &s.cps[j];
                 if cp.id == interrupted_id {
                     continue; // id collision is reported by the history oracle
@@ -289,12 +330,40 @@ impl Sys {
                 }
             }
             // the interrupted checkpoint: complete or error, never partial
+            let mut interrupted_complete = false;
             if !s.cps.iter().any(|c| c.id == interrupted_id) {
                 if let Ok(()) = fresh.restore(interrupted_id) {
                     let got = read(&fresh);
                     if got != *new_snapshot {
                         hooks::set_clock_ms(None);
                         return Err(Mismatch::new("partial_checkpoint_restored", format!("crash at {:?}: restore({}) succeeded with {:?}, the complete state is {:?}", plan, interrupted_id, got, new_snapshot)));
+                    }
+                    interrupted_complete = true;
+                }
+            }
+            // "... whatever is checkpointed afterwards": the recovered process takes a checkpoint of a different
+            // state within the same millisecond; every earlier checkpoint must still restore to its own state
+            let _ = fresh.put(keys[0], Value::Integer(77));
+            let mut after = BTreeMap::new();
+            for k in &keys {
+                if let Ok(Some(Value::Integer(i))) = fresh.get(k) {
+                    after.insert(k.to_string(), i);
+                }
+            }
+            if let Ok(id2) = fresh.checkpoint("after-crash") {
+                if earlier.iter().any(|&j| s.cps[j].id == id2) || (interrupted_complete && id2 == interrupted_id) {
+                    hooks::set_clock_ms(None);
+                    return Err(Mismatch::new("checkpoint_ids_collide", format!("crash at {:?} while writing {}; the checkpoint taken after recovery got id {} which an earlier checkpoint already carries", plan, interrupted_id, id2)));
+                }
+                for &j in &earlier {
+                    let cp = &s.cps[j];
+                    if cp.id == interrupted_id || Some(j) == would_drop {
+                        continue;
+                    }
+                    let ok = fresh.restore(&cp.id).is_ok() && read(&fresh) == cp.snapshot;
+                    if !ok {
+                        hooks::set_clock_ms(None);
+                        return Err(Mismatch::new("later_checkpoint_damaged_earlier_one", format!("crash at {:?} while writing {}, then checkpoint {} of state {:?} after recovery: restore({}) no longer gives {:?}", plan, interrupted_id, id2, after, cp.id, cp.snapshot)));
                     }
                 }
             }
@@ -318,10 +387,15 @@ impl System for Sys {
         v.push(Op::Checkpoint);
         let n = self.cps.len();
         for i in n.saturating_sub(self.max_restore_targets)..n {
-            v.push(Op::Restore(i));
+            if !self.superseded.contains(&i) {
+                v.push(Op::Restore(i));
+            }
         }
         v.push(Op::Tick(1));
         v.push(Op::Tick(3));
+        if self.reopen_letter {
+            v.push(Op::Reopen);
+        }
         v
     }
     fn step(&mut self, op: &Op) -> Result<u64, Mismatch> {
@@ -343,11 +417,12 @@ impl System for Sys {
             Op::Checkpoint => "checkpoint",
             Op::Restore(_) => "restore",
             Op::Tick(_) => "clock_advance",
+            Op::Reopen => "reopen_store",
         }
         .to_string()
     }
     fn model_state(&self) -> u64 {
-        hstr(&format!("{:?}|{}|{:?}|{:?}", self.model, self.clock - T0, self.cps.iter().map(|c| (&c.snapshot, c.same_ms_as_previous)).collect::<Vec<_>>(), self.retained))
+        hstr(&format!("{:?}|{}|{:?}|{:?}", self.model, self.clock - T0, self.cps.iter().map(|c| (&c.snapshot, c.same_ms_as_previous)).collect::<Vec<_>>(), (&self.retained, &self.orphans, &self.superseded)))
     }
 }
 
@@ -384,6 +459,9 @@ impl Sys {
             Op::Tick(d) => {
                 self.clock += d;
             }
+            Op::Reopen => {
+                self.reopen();
+            }
             Op::Checkpoint => {
                 let snap = self.observe()?;
                 self.compare_with_model(&snap, "before checkpoint")?;
@@ -393,8 +471,8 @@ impl Sys {
                 let labels = hooks::take_crash_log();
                 let same_ms = self.last_checkpoint_clock == Some(self.clock);
                 let tags: Vec<&str> = if same_ms { vec!["two_checkpoints_same_ms"] } else { vec![] };
-                if let Some(prev) = self.cps.iter().find(|c| c.id == id) {
-                    return Err(Mismatch::tagged("checkpoint_ids_collide", format!("checkpoint returned id {} which an earlier checkpoint (snapshot {:?}) already carries", id, prev.snapshot), &tags));
+                if let Some(j) = self.note_id(&id) {
+                    return Err(Mismatch::tagged("checkpoint_ids_collide", format!("checkpoint returned id {} which an earlier checkpoint (snapshot {:?}) that {} already carries", id, self.cps[j].snapshot, if j >= self.instance_start { "this store instance took" } else { "is still on disk" }), &tags));
                 }
                 if self.fault_injection {
                     self.inject_crashes(&id, &snap, &labels)?;
@@ -414,8 +492,8 @@ impl Sys {
             }
             Op::Restore(i) => {
                 let cp = self.cps[*i].clone();
-                let retained = self.retained.contains(i);
-                let collided = self.cps.iter().enumerate().any(|(j, c)| j != *i && c.id == cp.id);
+                let retained = self.retained.contains(i) || self.orphans.contains(i);
+                let collided = self.cps.iter().enumerate().any(|(j, c)| j != *i && c.id == cp.id && !self.superseded.contains(&j));
                 let tags: Vec<&str> = if collided || self.cps.iter().any(|c| c.same_ms_as_previous) { vec!["two_checkpoints_same_ms"] } else { vec![] };
                 let r = self.st().restore(&cp.id);
                 match r {
@@ -443,18 +521,22 @@ impl Sys {
 pub fn run(opts: &Opts) -> Vec<Report> {
     let mut out = vec![];
     let plan: Vec<(&str, usize, usize, usize, bool)> = match opts.tier {
-        Tier::Quick => vec![("store_histories_max10_len6", 10, 2, 6, false), ("store_histories_max2_len6", 2, 1, 6, false), ("crash_injection_len4", 2, 2, 4, true)],
-        Tier::Thorough => vec![("store_histories_max10_len7", 10, 2, 7, false), ("store_histories_max2_len7", 2, 1, 7, false), ("crash_injection_len5", 2, 2, 5, true)],
+        Tier::Quick => vec![("store_histories_max10_len6", 10, 2, 6, false), ("store_histories_max2_len6", 2, 1, 6, false), ("restart_histories_max2_len6", 2, 1, 6, false), ("crash_injection_len4", 2, 2, 4, true)],
+        Tier::Thorough => vec![("store_histories_max10_len7", 10, 2, 7, false), ("store_histories_max2_len7", 2, 1, 7, false), ("restart_histories_max2_len7", 2, 1, 7, false), ("crash_injection_len5", 2, 2, 5, true)],
     };
     for (name, maxcp, nkeys, depth, fi) in plan {
         if !crate::props::wants(opts, name) {
             continue;
         }
         let mut cfg = Config::new(name, depth);
-        cfg.ctx = json!({"max_checkpoints": maxcp, "keys": nkeys, "fault_injection": fi});
+        let reopen = name.starts_with("restart");
+        cfg.ctx = json!({"max_checkpoints": maxcp, "keys": nkeys, "fault_injection": fi, "reopen": reopen});
         cfg.expected_letters = ["put", "put_with_ttl", "update", "delete", "checkpoint", "restore", "clock_advance"].iter().map(|s| s.to_string()).collect();
+        if reopen {
+            cfg.expected_letters.push("reopen_store".into());
+        }
         CRASH_RUNS.store(0, Ordering::SeqCst);
-        let mut r = explore::explore(&move || Sys::new(maxcp, nkeys, fi), &cfg);
+        let mut r = explore::explore(&move || if reopen { Sys::new(maxcp, nkeys, fi).with_reopen() } else { Sys::new(maxcp, nkeys, fi) }, &cfg);
         if fi {
             let n = CRASH_RUNS.load(Ordering::SeqCst);
             r.count("crash_points", n);
@@ -463,9 +545,9 @@ pub fn run(opts: &Opts) -> Vec<Report> {
             if n == 0 {
                 r.notes.push("VACUITY: no crash point was injected".into());
             }
-            r.bound = format!("every checkpoint step of every history of length <= {}: every labelled crash point and every byte prefix 0..=len of the checkpoint file, then recovery in a new store on the same directory", depth);
+            r.bound = format!("every checkpoint step of every history of length <= {}: every labelled crash point and every byte prefix 0..=len of the checkpoint file, then recovery in a new store on the same directory (restore of every earlier and of the interrupted checkpoint), then a further checkpoint of a different state in the same millisecond and restore of every earlier checkpoint again", depth);
         } else {
-            r.bound = format!("all histories of length <= {} over put / put_with_ttl(2 ms) / update / delete / checkpoint / restore(any of the last 3 ids) / clock +1, +3 (no tick between two checkpoints = same millisecond); max_checkpoints {}", depth, maxcp);
+            r.bound = format!("all histories of length <= {} over put / put_with_ttl(2 ms) / update / delete / checkpoint / restore(any of the last 3 ids) / clock +1, +3 (no tick between two checkpoints = same millisecond){}; max_checkpoints {}", depth, if reopen { " / restart (drop the store, open a new one on the same directory)" } else { "" }, maxcp);
         }
         out.push(r);
     }
@@ -477,5 +559,6 @@ pub fn replay(case: &serde_json::Value) -> crate::props::ReplayResult {
     let nkeys = case["ctx"]["keys"].as_u64().unwrap_or(2) as usize;
     let fi = case["ctx"]["fault_injection"].as_bool().unwrap_or(false);
     let ch = crate::props::choices_of(case);
-    crate::props::conv(explore::replay(&move || Sys::new(maxcp, nkeys, fi), &ch))
+    let reopen = case["ctx"]["reopen"].as_bool().unwrap_or(false);
+    crate::props::conv(explore::replay(&move || if reopen { Sys::new(maxcp, nkeys, fi).with_reopen() } else { Sys::new(maxcp, nkeys, fi) }, &ch))
 }
